@@ -6,17 +6,21 @@
 (*   drift:   the logged pivots replayed through the transcription         *)
 (*            (SelectFn / BulkFn / PartitionFn) give the logged result.    *)
 (***************************************************************************)
-EXTENDS SortOps, TraceBase
+EXTENDS SortOps, ViewOps, TraceBase
 
 VARIABLE l
 
 InRangeAll(idx, n) == \A x \in DOMAIN idx : idx[x] < n
+
+(* C03: when the parent buffer was recorded (fields pm0, pm1, vin): nothing outside the view changed *)
+ParentOK(e) == Has(e, "pm0") => FrameOK(e.pm0, e.pm1, e.vin)
 
 (* ---- verdict level ---- *)
 PartitionEvOK(e) ==
     LET inr == e.p < Len(e.a) IN
     /\ e.out \in {"ok", "panic"}
     /\ SameBag(e.a, e.after)                                  \* C03, also on the panic path
+    /\ ParentOK(e)
     /\ (e.out = "panic") <=> ~inr                             \* C15 (never for in-range) / C16
     /\ e.out = "ok" => PartitionOK(e.a, e.p, e.k, e.after)    \* C15
 
@@ -24,6 +28,7 @@ SelectEvOK(e) ==
     LET inr == e.i < Len(e.a) IN
     /\ e.out \in {"ok", "panic"}
     /\ SameBag(e.a, e.after)
+    /\ ParentOK(e)
     /\ (e.out = "panic") <=> ~inr                             \* C16, under the pivots actually used
     /\ e.out = "ok" => SelectOK(e.a, e.i, e.ret, e.after)     \* C02
 
@@ -31,11 +36,21 @@ BulkEvOK(e) ==
     LET inr == InRangeAll(e.idx, Len(e.a)) IN
     /\ e.out \in {"ok", "panic"}
     /\ SameBag(e.a, e.after)
+    /\ ParentOK(e)
     /\ (e.out = "panic") <=> ~inr
     /\ e.out = "ok" => BulkOK(e.a, e.idx, e.keys, e.vals, e.after)
 
+(* C18: entry for index i of the bulk form = single selection of i *)
+BulkPairEvOK(e) ==
+    /\ e.out = "ok"
+    /\ \A x \in DOMAIN e.singles :
+          /\ e.singles[x].out = "ok"
+          /\ \E y \in DOMAIN e.keys : e.keys[y] = e.singles[x].i /\ e.vals[y] = e.singles[x].ret
+    /\ \A y \in DOMAIN e.keys : \E x \in DOMAIN e.singles : e.singles[x].i = e.keys[y]
+
 EventOK(e) ==
     CASE e.ev = "partition" -> PartitionEvOK(e)
+      [] e.ev = "bulkpair"  -> BulkPairEvOK(e)
       [] e.ev = "select"    -> SelectEvOK(e)
       [] e.ev = "bulk"      -> BulkEvOK(e)
       [] OTHER              -> FALSE         \* "abort", "timeout", unknown: never acceptable
